@@ -394,8 +394,17 @@ def generate(run, rng):
         """an end time a few samples past the end of the recording (annotations often overrun the audio)"""
         return (n + rng.randrange(1, 6) + rng.choice([0.0, 0.25])) / rate
 
-    def frames(maxn=12):
-        return {"$b": enc_samples(_samples(rng, width, rng.randrange(0, maxn + 1)), width).hex()}
+    def frames(maxn=12, like=None):
+        k = rng.randrange(0, maxn + 1)
+        if like is not None and rng.random() < 0.12:
+            # frames that repeat what the recording already holds (its tail, its head or a stretch of it):
+            # value coincidences between the new frames and their surroundings
+            cur = orc.m[like].s
+            if cur and k:
+                k = min(k, len(cur))
+                at = rng.choice([len(cur) - k, 0, rng.randrange(0, len(cur) - k + 1)])
+                return {"$b": enc_samples(list(cur[at:at + k]), width).hex()}
+        return {"$b": enc_samples(_samples(rng, width, k), width).hex()}
 
     h0 = mk_wav()
     if rng.random() < 0.3:
@@ -416,7 +425,7 @@ def generate(run, rng):
             tag = None
             if rng.random() < 0.05:
                 t, tag = beyond(n), "G-beyond-end"
-            run.do({"op": "wav.insert", "recv": h, "a": [t, frames()], "grid": g, "tag": tag})
+            run.do({"op": "wav.insert", "recv": h, "a": [t, frames(like=h)], "grid": g, "tag": tag})
         elif r < 0.32:
             a, b, g = span(n)
             tag = None
@@ -428,9 +437,9 @@ def generate(run, rng):
             tag = None
             if rng.random() < 0.1:
                 b, tag = beyond(n), "G-beyond-end"
-            run.do({"op": "wav.replaceSegment", "recv": h, "a": [a, b, frames()], "grid": g, "tag": tag})
+            run.do({"op": "wav.replaceSegment", "recv": h, "a": [a, b, frames(like=h)], "grid": g, "tag": tag})
         elif r < 0.5:
-            run.do({"op": "wav.concatenate", "recv": h, "a": [frames()]})
+            run.do({"op": "wav.concatenate", "recv": h, "a": [frames(like=h)]})
         elif r < 0.58:
             # insert then delete the same stretch: must restore the original
             k = rng.randrange(0, n + 1)
